@@ -37,7 +37,9 @@ def setup_call_ranges(P):
     ck = id(P)
     if ck in _RANGES:
         IV.CALL_RANGES.clear()
-        IV.CALL_RANGES.update(_RANGES[ck])
+        IV.CALL_RANGES.update(_RANGES[ck][0])
+        IV.WRAPPED_RANGES.clear()
+        IV.WRAPPED_RANGES.update(_RANGES[ck][1])
         return
     IV.CALL_RANGES.clear()
     try:
@@ -49,6 +51,31 @@ def setup_call_ranges(P):
                 IV.CALL_RANGES[MG + "iter::MoveGen::len"] = r
     except (AnchorError, IndexError, KeyError):
         pass
+    # wrappers of a constant Range<u8>: a struct with one private field of type Range<u8>, every construction of which is a literal lo..hi
+    IV.WRAPPED_RANGES.clear()
+    for ak, a in P.adts.items():
+        if a.get("crate") not in O.CORE or a.get("kind") != "struct" or len(a["variants"][0]["fields"]) != 1:
+            continue
+        f0 = a["variants"][0]["fields"][0]
+        if f0["ty"] != "core::ops::range::Range<u8>" or f0.get("vis") == "pub":
+            continue
+        bounds = set()
+        for fk, sites in k2.constructors_of(P, ak).items():
+            fb = P.fns.get(fk) or P.const_bodies.get(fk)
+            for blk in (fb["blocks"] if fb else []):
+                for s in blk["s"]:
+                    r = s.get("r", {})
+                    if s["k"] == "assign" and r.get("k") == "agg" and r.get("adt") == ak:
+                        d = k2.describe_operand(P, fb, r["ops"][0])
+                        if d[0] == "agg" and d[1] == "core::ops::range::Range" and len(d[3]) == 2 and d[3][0][0] == "int" and d[3][1][0] == "int":
+                            bounds.add((d[3][0][1], d[3][1][1]))
+                        elif d[0] == "call" and d[1].endswith("Range<u8> as core::clone::Clone>::clone") and fk.endswith("core::clone::Clone>::clone") and "'range'" in str(d[2]):
+                            pass            # a copy of an existing wrapper's range: within the same bounds
+                        else:
+                            bounds.add(None)
+        if len(bounds) == 1 and None not in bounds:
+            lo_, hi_ = list(bounds)[0]
+            IV.WRAPPED_RANGES[ak] = (f0["name"], lo_, hi_)
     cands = [k for k, b in P.fns.items() if b["crate"] == "chess_engine" and b.get("kind") in ("fn", "assoc_fn") and not b.get("generic")
              and b["locals"][0]["ty"] in ("i32", "i64", "u32", "i16", "u16", "usize") and not O.is_generated(k, b)]
     for _ in range(2):
@@ -60,7 +87,7 @@ def setup_call_ranges(P):
                     r = None
                 if r:
                     IV.CALL_RANGES[k] = r
-    _RANGES[ck] = dict(IV.CALL_RANGES)
+    _RANGES[ck] = (dict(IV.CALL_RANGES), dict(IV.WRAPPED_RANGES))
 
 
 _MP_P = None
